@@ -542,7 +542,7 @@ func c19Gen(tier string, rng *rand.Rand) []c19Case {
 	}
 	extra := 200
 	if tier == "thorough" {
-		extra = 900
+		extra = 4000
 	}
 	for i := 0; i < extra; i++ {
 		cs = append(cs, mk(ws[rng.Intn(5)], qs[rng.Intn(5)], modes[rng.Intn(3)]))
